@@ -170,6 +170,12 @@ fn gen_transform(ch: &mut Chooser) -> Option<Matrix4<f32>> {
         if ch.odds("xf_w", 1, 4) {
             m[(3, 3)] = *ch.pick("xf_w_v", &[0.5f32, 2.0, 1.25]);
         }
+    } else if ch.odds("xf_strong_perspective", 1, 4) {
+        // a camera-style perspective along z strong enough that part of the
+        // sampled space lies beyond the vanishing plane (w < 0); the probe
+        // points of such a run are placed on one side of it, |w| >= 0.5
+        // (see `c14_backend`)
+        m[(3, 2)] = *ch.pick("xf_pz", &[1.0f32, -1.0, 0.5, -0.5]);
     }
     Some(m)
 }
@@ -358,6 +364,30 @@ fn c14_backend<F: Function + MathFunction + Clone>(
             ]
         })
         .collect();
+    // strong perspective: w = 1 + pz * z; move the points' z into a band on
+    // which w is in [0.5, 2.5] or in [-2.5, -0.5] (drawn per visit)
+    let mut pts = pts;
+    if let Some(m) = c.xf.as_ref() {
+        let pz = m[(3, 2)];
+        if pz.abs() >= 0.5 && m[(3, 0)] == 0.0 && m[(3, 1)] == 0.0 {
+            let negative_w = ch(&mut |c| c.choose("w_side", 2)) == 1;
+            let wmid = if negative_w { -1.5f32 } else { 1.5 };
+            rep.count(
+                if negative_w {
+                    "fault.box_beyond_vanishing_plane"
+                } else {
+                    "fault.box_under_strong_perspective"
+                },
+                1,
+            );
+            for p in pts.iter_mut() {
+                // z in [-3, 3]  ->  w in wmid +- 1
+                let w = wmid + p[2] / 3.0;
+                p[2] = (w - m[(3, 3)]) / pz;
+            }
+        }
+    }
+    let pts = pts;
     let refs: Vec<f32> = pts.iter().map(|p| c.reference(*p, values)).collect();
     let xf = c.xf.as_ref();
 
